@@ -9,6 +9,8 @@
    Classes (all addressed to pairing "A" unless said otherwise; "B" is a second loaded pairing with
    its own key, "X" a key / identifier of no loaded pairing):
      gen(d)      genuine, nonce and inner state number = last + d          (d over Offsets)
+     abs(v)      genuine, nonce and inner state number = v (absolute, small): a recording from early in the key
+                 epoch; with the start states at the top of the 16-bit range it is far older than `last`
      wrongkey    sealed with B's key          foreignkey  sealed with X's key
      wrongaad    sealed for B's identifier, header says A
      toB         sealed by A for A, header rewritten to B (routed to the other pairing)
@@ -26,6 +28,7 @@ CONSTANT CaseDepth
 AllKeys == [p \in Pairings |-> TRUE]
 
 Rel == {[c |-> "gen", d |-> d] : d \in Offsets}
+       \cup {[c |-> "abs", d |-> v] : v \in AbsLow}          \* genuine, absolute small state number (an early recording)
        \cup {[c |-> x, d |-> 1] : x \in {"wrongkey", "foreignkey", "wrongaad", "toB", "payload", "tag",
                                          "fromB", "fromX", "unkA", "unkAa", "unkB"}}
        \cup {[c |-> x, d |-> d] : x \in {"innerp", "innerm"}, d \in {1, 2}}
@@ -37,6 +40,7 @@ Base(l, d, pos) == [from |-> "A", to |-> "A", k |-> "A", aad |-> "A", n |-> l["A
 Abs(r, l, prev, pos) ==
     LET b == Base(l, r.d, pos)
     IN CASE r.c = "gen"        -> b
+         [] r.c = "abs"        -> [Base(l, 0, pos) EXCEPT !.n = r.d, !.g = r.d]
          [] r.c = "wrongkey"   -> [b EXCEPT !.k = "B"]
          [] r.c = "foreignkey" -> [b EXCEPT !.k = "X"]
          [] r.c = "wrongaad"   -> [b EXCEPT !.aad = "B"]
@@ -64,12 +68,19 @@ Run(h, i, l, prev) ==
 
 Hists == UNION {[1..d -> Rel] : d \in 1..CaseDepth}
 Cases == {c \in {[start |-> s, steps |-> Run(h, 1, [p \in Pairings |-> s], << >>)] : h \in Hists, s \in Starts} :
-            \A i \in 1..Len(c.steps) : c.steps[i].a.to # "-" /\ c.steps[i].a.n >= 0 /\ c.steps[i].a.g >= 0}
+            \A i \in 1..Len(c.steps) : c.steps[i].a.to # "-" /\ c.steps[i].a.n >= 0 /\ c.steps[i].a.g >= 0
+                                       /\ c.steps[i].a.n <= MAXGSN /\ c.steps[i].a.g <= MAXGSN}
 
 \* the exported outcomes satisfy the requirement (the algorithm refines it on every exported step)
 CasesConform == \A c \in Cases : \A i \in 1..Len(c.steps) :
                    LET pre == IF i = 1 THEN [p \in Pairings |-> c.start] ELSE c.steps[i - 1].after
                    IN StepOK(c.steps[i].a, pre, AllKeys, c.steps[i].after, c.steps[i].del)
+
+\* the export is a constant-level computation; the behaviour specification of this configuration is a single
+\* stuttering state (the state machine itself is model-checked by the BleBroadcast configurations)
+CInit == /\ last = [p \in Pairings |-> Min(Starts)] /\ key = AllKeys /\ acc = {} /\ steps = 0
+         /\ out = [kind |-> "init", a |-> NoAdv, why |-> "init", del |-> << >>, may |-> FALSE, must |-> FALSE]
+CSpec == CInit /\ [][UNCHANGED vars]_vars
 
 ExportCases ==
     /\ TLCGet("stats").generated >= 0
